@@ -144,6 +144,8 @@ func judge(prop string, p *Plan, r *run, obs []*reqObs, res *core.Result) {
 		want := fmt.Sprintf("req %d %s %s", i, q.Method, q.URL())
 		if q.HostOverride != "" {
 			want += " Host=" + q.HostOverride
+		} else if q.EmptyHost {
+			want += " Host unset"
 		}
 		if o.panicked {
 			if strings.HasPrefix(o.psite, "ech") {
@@ -244,7 +246,7 @@ func judge(prop string, p *Plan, r *run, obs []*reqObs, res *core.Result) {
 
 		// (3) server name and authentication
 		for _, d := range dials[i] {
-			if d.SNI != q.Host {
+			if !strings.EqualFold(d.SNI, q.Host) {
 				fail("server-name", sniSite(d.SNI, q, m), "%s: %s dial of %s with ServerName %q", want, d.Network, d.Addr, d.SNI)
 			}
 			if d.ISV {
@@ -273,6 +275,9 @@ func judge(prop string, p *Plan, r *run, obs []*reqObs, res *core.Result) {
 			}
 			if d.Late {
 				res.Probe("dial_after_decision")
+			}
+			if d.Outcome == "blackhole" {
+				res.Probe("blackholed_target")
 			}
 		}
 
